@@ -299,3 +299,66 @@ Definition spec_predeclared : list str := map bytes_of
    "min"; "new"; "panic"; "print"; "println"; "real"; "recover"]%string.
 Definition spec_packages : list str := map bytes_of ["fmt"; "http"; "json"; "os"; "url"; "time"]%string.
 Definition spec_names : list str := spec_keywords ++ spec_predeclared ++ spec_packages.
+
+(* ---- Go type names (codegen/scope.go GoTypeName / GoFullTypeName with pkg = "", GoTypeRef /
+   goTypeRef / isRawStruct; codegen/types.go GoNativeTypeName) over primitives, arrays, maps and
+   user types. A user type is seen through what the code uses of it: its Hash(), its Name() and
+   whether it is an object (pointer reference) or an alias of a primitive. Inline objects, unions
+   and package qualification are not modelled. ---- *)
+Inductive prim := PBoolean | PInt | PInt32 | PInt64 | PUInt | PUInt32 | PUInt64 | PFloat32 | PFloat64 | PString | PBytes | PAny.
+
+Definition native_name (p : prim) : str :=
+  bytes_of match p with
+  | PBoolean => "bool" | PInt => "int" | PInt32 => "int32" | PInt64 => "int64"
+  | PUInt => "uint" | PUInt32 => "uint32" | PUInt64 => "uint64"
+  | PFloat32 => "float32" | PFloat64 => "float64" | PString => "string" | PBytes => "[]byte" | PAny => "any"
+  end%string.
+
+Inductive ty :=
+| TPrim (p : prim)
+| TArray (e : ty)
+| TMap (k e : ty)
+| TUser (hash name : str) (obj : bool).
+
+(* goTypeRef: "*" + name unless isRawStruct *)
+Definition is_ptr (t : ty) : bool := match t with TUser _ _ true => true | _ => false end.
+Definition star (b : bool) (n : str) : str := if b then 42 :: n else n.
+
+Section TypeNames.
+  (* Goify(name, true) *)
+  Variable g : str -> str.
+
+  Fixpoint go_type_name (s : scope) (t : ty) : str * scope :=
+    match t with
+    | TPrim p => (native_name p, s)
+    | TArray e => let (n, s1) := go_type_name s e in (bytes_of "[]" ++ star (is_ptr e) n, s1)
+    | TMap k e =>
+      let (nk, s1) := go_type_name s k in
+      let (ne, s2) := go_type_name s1 e in
+      (bytes_of "map[" ++ star (is_ptr k) nk ++ bytes_of "]" ++ star (is_ptr e) ne, s2)
+    | TUser h n _ => hashed_unique s h (g n) (Some [])
+    end.
+
+  Definition go_type_ref (s : scope) (t : ty) : str * scope :=
+    let (n, s') := go_type_name s t in (star (is_ptr t) n, s').
+
+  (* the HashedUnique calls a type makes, in order *)
+  Fixpoint type_ops (t : ty) : list op :=
+    match t with
+    | TPrim _ => []
+    | TArray e => type_ops e
+    | TMap k e => type_ops k ++ type_ops e
+    | TUser h n _ => [OHashed h (g n) (Some [])]
+    end.
+
+  (* a sequence of GoTypeRef (true) / GoTypeName (false) calls on one scope *)
+  Fixpoint run_types (s : scope) (calls : list (bool * ty)) : list str :=
+    match calls with
+    | [] => []
+    | (r, t) :: rest =>
+      let (x, s') := if r then go_type_ref s t else go_type_name s t in x :: run_types s' rest
+    end.
+
+  Definition types_scope (calls : list (bool * ty)) : scope :=
+    exec empty_scope (flat_map (fun c => type_ops (snd c)) calls).
+End TypeNames.
